@@ -342,6 +342,95 @@ def real_loop(ctx, runs):
     ctx.cov["traces_validated_against_impl"] += ok
 
 
+# ---------------------------------------------------------------------------------------------------- tx stash
+
+def stash_check(ctx, runs):
+    """The node's tx stash (cmd/thor/node/tx_stash.go + txStashLoop) next to the pool: TxStash.tla exhaustively, then the real
+    txStash on a scratch leveldb directory driven by the tx events of a real pool (loop body played by the driver, and the
+    node's own loop with process restarts), validated by Trace_TxStash.tla.  Signatures are prefixed txstash:."""
+    ctx.tlc_must_hold("net", "MCStash", cfg="MCStash.cfg", workers=4, timeout=300, label="tx stash: 3 txs, capacity 2, restarts")
+    d = ctx.tmp("stash")
+    o = run_poolsim(ctx, ["-mode", "stash", "-runs", str(runs), "-seed", str(ctx.seed * 13 + 1), "-out", d], 900, "stash")
+    if o is None:
+        return
+    stats = json.load(open(os.path.join(d, "stash-runs.json")))
+    ctx.cov["runs_discarded_slow"] = ctx.cov.get("runs_discarded_slow", 0) + sum(1 for s in stats if s.get("discarded"))
+    stats = [s for s in stats if not s.get("discarded")]
+    left = [f for f in os.listdir(d) if f.startswith("stash-") and os.path.isdir(os.path.join(d, f))]
+    if left:
+        raise Infra("stash scratch directories were not removed: %s" % left)
+    events = read_ndjson(os.path.join(d, "stash-trace.ndjson"))
+    runs_ = split_runs(events)
+    ctx.cov["evaluations"] += len(stats)
+    counts = {}
+    for s in stats:
+        for k, v in s["counts"].items():
+            counts[k] = max(counts.get(k, 0), v) if k == "max_on_disk" else counts.get(k, 0) + v
+    ctx.cov["txstash_counters"] = counts
+    ctx.cov["txstash_events"] = len(events)
+
+    def validate(evs, name):
+        p = os.path.join(d, name + ".ndjson")
+        write_ndjson(p, evs)
+        return ctx.validate_trace("net", "Trace_TxStash", p, cfg="Trace_TxStash.cfg", timeout=600)
+
+    pending = list(range(len(runs_)))
+    ok = []
+    for attempt in range(4):
+        if not pending:
+            break
+        accepted, hwm, ln, r = validate([e for k in pending for e in runs_[k]["events"]], "stash-val-%d" % attempt)
+        if accepted:
+            ok += pending
+            ctx.cov["states"] += r.distinct
+            ctx.cov["transitions"] += r.generated
+            break
+        pos, bad, off = 0, None, 0
+        for k in pending:
+            n = len(runs_[k]["events"])
+            if hwm < pos + n:
+                bad, off = k, hwm - pos
+                break
+            pos += n
+        if bad is None:
+            raise Infra("stash trace rejected but the run was not found (hwm %d of %d)" % (hwm, ln))
+        ev = runs_[bad]["events"][off]
+        what = "invariant %s violated" % r.invariant if r.invariant else "event not allowed by the specification"
+        sig = "txstash:invariant:" + r.invariant if r.invariant else "txstash:rejected:" + str(ev.get("e"))
+        report_once(ctx, sig, "tx stash: seed=%s event #%d %s -> %s" % (runs_[bad]["events"][0].get("seed"), off,
+                                                                        json.dumps(ev, sort_keys=True)[:400], what),
+                    lambda: ctx.save_replay("txstash-run%d-seed%s.json" % (bad, runs_[bad]["events"][0].get("seed")),
+                                            {"how": "poolsim -mode stash", "offending_index": off, "offending_event": ev,
+                                             "tlc_verdict": what, "stats": stats[bad] if bad < len(stats) else None,
+                                             "stash_trace": runs_[bad]["events"]}))
+        i = pending.index(bad)
+        ok += pending[:i]
+        pending = pending[i + 1:]
+    ctx.cov["traces_validated_against_impl"] += len(ok)
+    ctx.cov["txstash_runs_accepted"] = len(ok)
+    if ok and not ctx.violations:
+        # binding demonstration: a Snap with two FIFO entries swapped, and a trace without one of the saving tx events
+        evs = runs_[ok[0]]["events"]
+        snaps = [i for i, e in enumerate(evs) if e["e"] == "Snap" and len(e["fifo"]) >= 2 and e["fifo"][0] != e["fifo"][1]]
+        saves = [i for i, e in enumerate(evs) if e["e"] == "TxEvent" and e["exec"] != "t"]
+        if not snaps or not saves:
+            raise Infra("tx stash binding demonstration: the run has no suitable events")
+        i = snaps[len(snaps) // 2]
+        bad1 = [dict(e) for e in evs]
+        f = list(bad1[i]["fifo"])
+        f[0], f[1] = f[1], f[0]
+        bad1[i]["fifo"] = f
+        j = saves[0]
+        bad2 = evs[:j] + evs[j + 1:]
+        for name, b, at in (("stash-corrupted", bad1, i), ("stash-deleted", bad2, j)):
+            accepted, hwm, ln, r = validate(b, name)
+            if accepted or hwm > at + 40:
+                raise Infra("tx stash binding demonstration failed: %s accepted=%s rejected at %d (tampered at %d)" % (name, accepted, hwm, at))
+        ctx.cov["txstash_binding_demo"] = "a Snap with two FIFO entries swapped and a trace without one saving tx event were rejected"
+        ctx.sample({"txstash": [e for e in evs if e["e"] in ("TxEvent", "Snap", "Start", "Stop")][:6]}, limit=9)
+    return counts
+
+
 def binding_demo(ctx, accepted):
     """The trace spec must have teeth: an accepted recorded run with one field corrupted and one with an event deleted must
     both be rejected (DESIGN 3.2); otherwise the check itself is broken -> Infra."""
